@@ -41,6 +41,12 @@ def generate(seed, tier, k):
         "reuse_step": mode == 0 and r.random() < 0.4,
         "evaluate_twice": mode == 0 and r.random() < 0.4,
     }
+    if doc.get("manual_bc_ramp"):
+        if mode == 2:
+            doc.pop("manual_bc_ramp")  # (the retry after a failure re-runs steps without the caller's loop)
+        else:
+            # the sub-histories that re-run steps on their own know nothing of the caller's loop
+            doc["c15"].update(restart_after=None, refine=False, reuse_step=False, evaluate_twice=False)
     return gen.maybe_units(doc)
 
 
